@@ -116,6 +116,10 @@ def pairs(tier):
             f"Mm ::= SEQUENCE {{ a BOOLEAN, n INTEGER (0..{P1}) }} Nn ::= SEQUENCE {{ a NULL, n INTEGER (0..{P1}) }}", nonneg)
         add(f"parameterized value two-instantiations [{pn}]", tv, f"Mm ::= {pn} {{{P1}}} Nn ::= {pn} {{{P2}}}", f"Mm ::= INTEGER (0..{P1}) Nn ::= INTEGER (0..{P2})", lambda v: [v[0] >= 0, v[1] >= 0], 2)
         add(f"parameterized reference-argument [{pn}]", tt + " R ::= SEQUENCE { z NULL }", f"Mm ::= {pn} {{R}}", f"Mm ::= SEQUENCE {{ a R, n INTEGER (0..{P1}) }}", nonneg)
+        # X.683 8.3: inside the template a dummy reference hides a module definition that is spelled the same
+        add(f"parameterized type dummy shadows a type [{pn}]", tt + " T ::= NULL", f"Mm ::= {pn} {{BOOLEAN}}", f"Mm ::= SEQUENCE {{ a BOOLEAN, n INTEGER (0..{P1}) }}", nonneg)
+        add(f"parameterized value dummy shadows a value [{pn}]", tv + " v INTEGER ::= 7", f"Mm ::= {pn} {{{P1}}}", f"Mm ::= INTEGER (0..{P1})", nonneg)
+        add(f"parameterized both dummies shadow definitions [{pn}]", tb + " T ::= NULL v INTEGER ::= 7", f"Mm ::= {pn} {{BOOLEAN, {P1}}}", f"Mm ::= SEQUENCE {{ a BOOLEAN, b INTEGER (0..{P1}) }}", nonneg)
     # ---- selection types
     for cn in ('C', 'Zc'):
         ch = f"{cn} ::= CHOICE {{ a INTEGER (0..{P1}), b BOOLEAN, c SEQUENCE {{ z NULL }} }}"
